@@ -35,7 +35,7 @@ func manifest() map[string]any {
 			"technique":           "static analysis: " + strings.Join(s.Rules, ", ") + " over the type-checked program, go/ssa and a VTA call graph",
 			"level_claimed": map[string]any{
 				"category":   "other",
-				"text":       s.Explanation + " Decided: " + strings.Join(s.Decided, "; ") + ". Not decided: " + strings.Join(s.NotDecided, "; ") + ".",
+				"text":       s.Explanation + " Decided: " + strings.Join(decidedClauses(s), "; ") + ". Not decided: " + strings.Join(s.NotDecided, "; ") + ".",
 				"design_ref": "DESIGN.md §5 " + id,
 			},
 			"level_note": "Trusted: " + strings.Join(s.Trusted, "; ") + ". Assumed: " + strings.Join(s.Assumptions, "; ") + ".",
